@@ -1,2 +1,3 @@
 //! Independent reference models, written from the standards' text.
 pub mod round;
+pub mod esr;
